@@ -57,6 +57,8 @@ THEOREMS = [
     "Nix.C04.role_clear_follows_source",
     "Nix.C04.subtree_follows_source",
     "Nix.C04.source_delete_gone",
+    "Nix.C04.delete_step_gone",
+    "Nix.C04.history4_delete",
 ]
 ASSUMPTIONS = [
     "every reference nixio keeps to an entity is an HDF5 hard link (owning container entry, link-list entry, role "
@@ -107,12 +109,30 @@ QUERIES = ("get", "has", "len", "list", "role", "dump", "noop", "reset", "fuel_o
 # generator: link topologies + deletion-heavy churn (store protocol, runs in lockstep with the real file)
 
 LINK_OWNERS = {"data_array": [("group", "data_arrays"), ("tag", "references"), ("multi_tag", "references")],
+               "data_frame": [("group", "data_frames")],
                "tag": [("group", "tags")],
                "multi_tag": [("group", "multi_tags")],
                "source": [("group", "sources"), ("data_array", "sources"), ("tag", "sources"),
                           ("multi_tag", "sources")]}
-DEL_KIND_WEIGHTS = [("data_array", 26), ("source", 16), ("section", 16), ("tag", 8), ("multi_tag", 8),
-                    ("group", 5), ("block", 2), ("feature", 8), ("property", 9)]
+DEL_KIND_WEIGHTS = [("data_array", 24), ("data_frame", 10), ("source", 16), ("section", 16), ("tag", 8),
+                    ("multi_tag", 8), ("group", 5), ("block", 2), ("feature", 8), ("property", 9)]
+# storegen's tables plus the data-frame containers (Block.data_frames, Group.data_frames)
+CONTAINERS4 = dict(storegen.CONTAINERS)
+CONTAINERS4["block"] = storegen.CONTAINERS["block"] + ["data_frames"]
+CONTAINERS4["group"] = storegen.CONTAINERS["group"] + ["data_frames"]
+LINK_CONTS4 = set(storegen.LINK_CONTS) | {("group", "data_frames")}
+INDEXED4 = set(storegen.INDEXED) | {("group", "data_frames")}
+
+
+def inventory4(impl):
+    """storegen.inventory plus the data frames of every block"""
+    ents = storegen.inventory(impl)
+    for bi, b in enumerate(impl.f.blocks):
+        bsel = bi if storegen.real_uuid(b.name) else b.name
+        for i, df in enumerate(b.data_frames):
+            ents.append(storegen.Ent("data_frame", ["data", bsel, "data_frames",
+                                                    i if storegen.real_uuid(df.name) else df.name], df.name, b.name))
+    return ents
 
 
 class DelGen(storegen.Gen):
@@ -139,7 +159,7 @@ class DelGen(storegen.Gen):
 
     def step(self):
         self.n += 1
-        ents = storegen.inventory(self.impl)
+        ents = inventory4(self.impl)
         blocks = [e for e in ents if e.kind == "block"]
         if len(blocks) < 2 and self.n <= 4:
             self.do(["create_block", self.name([b.name for b in blocks]), "t"])
@@ -149,8 +169,10 @@ class DelGen(storegen.Gen):
             return
         if self.n <= self.build_steps:
             r = self.rng.random()
-            if r < 0.45:
+            if r < 0.38:
                 self.create(ents)
+            elif r < 0.50:
+                self.frames_and_dims(ents)
             elif r < 0.8:
                 self.fan_in(ents)
             else:
@@ -163,8 +185,10 @@ class DelGen(storegen.Gen):
             self.unlink(ents)
         elif r < 0.70:
             self.role_clear(ents)
-        elif r < 0.80:
+        elif r < 0.78:
             self.create(ents)
+        elif r < 0.82:
+            self.frames_and_dims(ents)
         elif r < 0.90:
             self.fan_in(ents)
         elif r < 0.95:
@@ -172,11 +196,37 @@ class DelGen(storegen.Gen):
         else:
             self.bad(ents)
 
+    def frames_and_dims(self, ents):
+        """a data frame in some block / a range dimension of an array linked to an array or frame (one more hard
+        link to the target, from `array/dimensions/<n>/link`)"""
+        rng = self.rng
+        if rng.random() < 0.5:
+            blk = self.pick(ents, "block")
+            if blk is None:
+                return
+            sib = [e.name for e in ents if e.kind == "data_frame" and e.block == blk.name]
+            r = rng.random()
+            name = rng.choice(sib) if sib and r < 0.1 else rng.choice(storegen.NAMES_PLAIN[:9] + ["", "a/b"])
+            self.do(["create_df", blk.path, name])
+            self.do(["list", blk.path, "data_frames"])
+            self.count("create data_frame")
+            return
+        arr = self.pick(ents, "data_array")
+        if arr is None:
+            return
+        tgt = self.pick(ents, rng.choice(["data_array", "data_array", "data_frame"]),
+                        block=arr.block if rng.random() < 0.9 else None)
+        if tgt is None:
+            return
+        self.do(["dim_link", arr.path, tgt.path])
+        self.do(["dump"])
+        self.count("dimension link to %s" % tgt.kind)
+
     # -- topology -------------------------------------------------------------------------
     def fan_in(self, ents):
         """one target appended to several link lists"""
         rng = self.rng
-        kind = rng.choice(["data_array", "data_array", "source", "source", "tag", "multi_tag"])
+        kind = rng.choice(["data_array", "data_array", "data_frame", "source", "source", "tag", "multi_tag"])
         tgt = self.pick(ents, kind)
         if tgt is None:
             return
@@ -199,7 +249,8 @@ class DelGen(storegen.Gen):
             sec = self.pick(ents, "section")
             if sec is None:
                 return
-            owners = [e for e in ents if e.kind in ("block", "group", "data_array", "tag", "multi_tag", "source")]
+            owners = [e for e in ents if e.kind in ("block", "group", "data_array", "data_frame", "tag", "multi_tag",
+                                                    "source")]
             rng.shuffle(owners)
             for o in owners[:rng.randint(2, 4)]:
                 self.do(["set_role", o.path, "metadata", sec.path])
@@ -223,7 +274,7 @@ class DelGen(storegen.Gen):
                 self.do(["role", mt.path, role])
                 self.count("role")
         else:
-            da = self.pick(ents, "data_array")
+            da = self.pick(ents, "data_array" if rng.random() < 0.7 else "data_frame")
             if da is None:
                 return
             tags = [e for e in ents if e.kind in ("tag", "multi_tag") and e.block == da.block]
@@ -236,13 +287,13 @@ class DelGen(storegen.Gen):
     # -- deletion -------------------------------------------------------------------------
     def after_probe(self, block):
         """every link list and role link of a sample of the survivors, then the whole-file dump"""
-        ents = storegen.inventory(self.impl)
-        owners = [e for e in ents if e.kind in ("group", "tag", "multi_tag", "data_array")
+        ents = inventory4(self.impl)
+        owners = [e for e in ents if e.kind in ("group", "tag", "multi_tag", "data_array", "data_frame")
                   and (block is None or e.block == block)]
         self.rng.shuffle(owners)
         for o in owners[:6]:
-            for cname in storegen.CONTAINERS[o.kind]:
-                if (o.kind, cname) in storegen.INDEXED:
+            for cname in CONTAINERS4.get(o.kind, []):
+                if (o.kind, cname) in INDEXED4:
                     self.do(["list", o.path, cname])
             if o.kind == "multi_tag":
                 self.do(["role", o.path, "positions"])
@@ -301,8 +352,8 @@ class DelGen(storegen.Gen):
         rng = self.rng
         cands = []
         for o in ents:
-            for cname in storegen.CONTAINERS.get(o.kind, []):
-                if (o.kind, cname) in storegen.LINK_CONTS:
+            for cname in CONTAINERS4.get(o.kind, []):
+                if (o.kind, cname) in LINK_CONTS4:
                     cands.append((o, cname))
         rng.shuffle(cands)
         for o, cname in cands[:8]:
@@ -322,7 +373,8 @@ class DelGen(storegen.Gen):
         rng = self.rng
         r = rng.random()
         if r < 0.5:
-            o = self.pick(ents, rng.choice(["block", "group", "data_array", "tag", "multi_tag", "source"]))
+            o = self.pick(ents, rng.choice(["block", "group", "data_array", "data_frame", "tag", "multi_tag",
+                                            "source"]))
             role = "metadata"
         elif r < 0.75:
             o, role = self.pick(ents, "multi_tag"), "extents"
@@ -346,7 +398,7 @@ class DelGen(storegen.Gen):
 
 def run_history(ctx, rng, steps, build_steps, tag, reopen_prob=0.0):
     path = ctx.tmpfile("c04-%s.nix" % tag)
-    impl = Impl(path, literal_uuid_names=(storegen.LIT_UUID,))
+    impl = Impl4(path, literal_uuid_names=(storegen.LIT_UUID,))
     gen = DelGen(rng, impl, build_steps)
     try:
         for _ in range(steps):
@@ -368,7 +420,7 @@ def run_history(ctx, rng, steps, build_steps, tag, reopen_prob=0.0):
 def run_script(ctx, ops, tag):
     """a fixed list of store-protocol ops on a fresh file"""
     path = ctx.tmpfile("c04-%s.nix" % tag)
-    impl = Impl(path, literal_uuid_names=(storegen.LIT_UUID,))
+    impl = Impl4(path, literal_uuid_names=(storegen.LIT_UUID,))
     try:
         return [impl.run(op) for op in ops]
     finally:
@@ -413,12 +465,13 @@ def canon_dump(nodes):
 
 
 def compare(ops, outs, model):
-    """storegen.compare on outputs whose dumps are re-canonicalised; the error class of a refused append is not
-    this property's subject (only refused / accepted is compared there)"""
+    """storegen.compare on outputs whose dumps are re-canonicalised; the error class of a refused append /
+    create_feature is not this property's subject (only refused / accepted is compared there; a tagged feature on a
+    data frame raises UnsupportedLinkType, which the shared model files under ValueError)"""
     def prep(o, op):
         if op[0] == "dump" and isinstance(o, dict) and isinstance(o.get("ok"), list):
             return {"ok": canon_dump(o["ok"])}
-        if op[0] == "append" and isinstance(o, dict) and "err" in o:
+        if op[0] in ("append", "create_feature") and isinstance(o, dict) and "err" in o:
             return {"err": "refused"}
         return o
     outs2 = [prep(o, op) for o, op in zip(outs, ops)]
@@ -502,8 +555,14 @@ class Impl4(Impl):
             return None
         if op[0] == "dim_link":         # ["dim_link", array path, target array path]: range dimension linked to target
             da = self.nav(op[1])
+            tgt = self.nav(op[2])
+            if not isinstance(da, nixio.DataArray) or not isinstance(tgt, (nixio.DataArray, nixio.DataFrame)):
+                raise BadOp("dim_link needs an array and an array / frame")
             rd = da.append_range_dimension()
-            rd.link_data_array(self.nav(op[2]), [-1])
+            if isinstance(tgt, nixio.DataFrame):
+                rd.link_data_frame(tgt, 0)
+            else:
+                rd.link_data_array(tgt, [-1])
             return None
         return super()._run(op)
 
